@@ -2,10 +2,25 @@
 package main
 
 import (
+	"fmt"
 	"os"
 
 	"verif/harness/core"
 	_ "verif/harness/props"
+	"verif/harness/twin"
 )
 
-func main() { os.Exit(core.Main(os.Args[1:])) }
+func main() {
+	if len(os.Args) > 1 && os.Args[1] == "warm" {
+		// first interpreter of a process loads export data of std packages through `go list -export`
+		// (cached in GOCACHE afterwards): do it once at setup time
+		ir := twin.NewFast()
+		for _, p := range []string{"fmt", "strings", "sort", "errors", "io", "bytes", "strconv", "math", "sync", "bufio", "os", "time", "unicode", "container/heap", "math/big"} {
+			if e := twin.Catch(func() { ir.Eval(fmt.Sprintf("import %q", p)) }); e != nil {
+				fmt.Fprintln(os.Stderr, "warm: import", p, "failed:", e)
+			}
+		}
+		return
+	}
+	os.Exit(core.Main(os.Args[1:]))
+}
